@@ -121,6 +121,9 @@ impl<'a> Executor<'a> {
         a.input_bytes += r.io.input_bytes;
         a.exec_wall_us += r.wall_us;
         Acc::bump(&mut a.policies, &policy_family(&spec.policy), 1);
+        if spec.stale_outputs.is_some() {
+            Acc::bump(&mut a.faults_fired, "stale_output_files_present", 1);
+        }
         Acc::bump(&mut a.faults_fired, "short_read", r.io.short_reads);
         Acc::bump(&mut a.faults_fired, "read_eintr", r.io.read_eintr);
         Acc::bump(&mut a.faults_fired, "read_eio", r.io.read_eio);
